@@ -158,7 +158,8 @@ def _rest(ctx, rep):
     rep.check(good, "R3", key(am, None, "adding a known market id re-opens the stored market"), am)
     opm = prog.own_method("Market", "open_market")
     st = {utext(s.targets[0]): utext(s.value) for s in walk_nodes(opm.node.body, ast.Assign)}
-    rep.check(st == {"self.closed": "False", "self.orders_cleared": "[]", "self.market_cleared": "[]"}, "R3",
+    need_open = {"self.closed": "False", "self.orders_cleared": "[]", "self.market_cleared": "[]"}
+    rep.check({k_: v_ for k_, v_ in st.items() if k_ in need_open} == need_open, "R3",
               key(opm, None, "re-opening resets closed and both cleared lists"), opm, None, str(st))
     clm = prog.own_method("Market", "close_market")
     st = {}
@@ -166,6 +167,8 @@ def _rest(ctx, rep):
         cfgx = ctx.cfg(fn_)
         for n in cfgx.live_nodes():
             if n.kind == "stmt" and isinstance(n.ast, ast.Assign):
+                if utext(n.ast.targets[0]) not in ("self.closed", "self.orders_cleared", "self.market_cleared", "self.date_time_closed"):
+                    continue   # bookkeeping beside the state the property speaks about
                 rep.check(cfgx.unconditional(n.id) and cfgx.all_paths_pass(cfgx.entry, cfgx.exit, [n.id]), "R3",
                           key(fn_, n.ast, "unconditional"), fn_, n.ast,
                           "a conditional reset keeps state of an earlier closure (e.g. the first closing time)")
